@@ -536,6 +536,10 @@ where
                         // The truncated suffix no longer exists: the next index to allocate is
                         // the first truncated one (insert_to_memory raises it past the new tail).
                         self.next_id.store(diverge_index, Ordering::Release);
+                        // Entries from diverge_index on are gone from disk too (ReplaceRange
+                        // below): nothing above diverge_index - 1 may still be reported durable,
+                        // otherwise later appends at those indexes are never persisted.
+                        self.durable_index.fetch_min(diverge_index.saturating_sub(1), Ordering::AcqRel);
                         self.insert_to_memory(tail);
                         let (done_tx, done_rx) = oneshot::channel();
                         self.command_sender
